@@ -472,7 +472,7 @@ package stree
 //@   ensures  [C01,C02] shape: treeOK(result, cmp) && cntOf(result) == len(nodes)
 //@   ensures  [C01,C02] card: result != nil ==> card(result.keys) == len(nodes)
 //@   ensures  [C02] minimal: pwOK(result) && (result != nil ==> len(nodes) < result.pw && result.pw <= 2 * len(nodes))
-//@   ensures  [C02] pwframe: forall y *node[T] :: {y.pw} old(allocated(y)) && !inD(result, y) ==> y.pw == old(y.pw)
+//@   ensures  [C01,C02] pwframe: forall y *node[T] :: {y.pw} old(allocated(y)) && !inD(result, y) ==> y.pw == old(y.pw)
 //@   ensures  [C01,C02] members: forall k int :: {nodes[k]} 0 <= k && k < len(nodes) ==> inD(result, nodes[k]) && inK(result, rank(cmp, nodes[k].X)) && result.rep[rank(cmp, nodes[k].X)] == nodes[k].X
 //@   ensures  [C01,C02] onlyNodes: forall y ref :: {inD(result, y)} inD(result, y) ==> 0 <= ni[y] && ni[y] < len(nodes) && nodes[ni[y]] == y
 //@   ensures  [C01,C02] onlyKeys: forall k int :: {inK(result, k)} inK(result, k) ==> 0 <= ki[k] && ki[k] < len(nodes) && rank(cmp, nodes[ki[k]].X) == k
